@@ -16,6 +16,9 @@ import sweep
 INPUT1 = ["ab x", "b a", "a:b c", "xx", "ba ab", "c a", "abc", "a"]
 INPUT2 = ["zz", "ab q", "qa b", "a"]
 MORE = ["more a", "b more", "ab"]
+# for the slow-starting reloads: as many lines as INPUT1 and every one of them matches a, b, "a b" and the empty query, so that an item that
+# stays hidden after the reload (exclusions are by item index) is missed from the result whatever the index and the query
+INPUT3 = ["ab c", "ba q", "a b", "b a", "abc b", "q ab", "bab", "aba"]
 BASE_EVENTS = ["put(a)", "put(b)", "backward-delete-char", "clear-query", "change-query(a b)", "toggle-sort", "exclude", "up",
                "change-nth(2)", "change-nth(1)", "RELOAD2", "RELOAD1", "RELOADSYNC2", "backward-delete-char+put(c)", "put(a)+put(b)",
                "beginning-of-line+forward-char+backward-delete-char+put(b)", "STDIN-MORE", "STDIN-EOF", "HOLD", "RELEASE",
@@ -60,7 +63,7 @@ class World:
         # every reloaded line carries the number of its reload: "the reload has landed" is then visible in the texts of the
         # match list (a count alone can be reported before the new list is displayed)
         self.nreload += 1
-        return ["%s ~%d" % (l, self.nreload) for l in (INPUT2 if which == 2 else INPUT1)]
+        return ["%s ~%d" % (l, self.nreload) for l in {1: INPUT1, 2: INPUT2, 3: INPUT3}[which]]
 
     def edit(self, a):
         q, cx = self.q, self.cx
@@ -143,7 +146,7 @@ class World:
                 self.edit("exclude")
                 s.post("exclude")
             # the command stays silent for a while: the following events are handled in the gap before its first output
-            new = self.reload_content(2)
+            new = self.reload_content(3)
             self.post_reload("reload(sleep 0.5; printf '%%s\\n' %s)" % " ".join("'%s'" % l for l in new), new, immediate=False)
         elif ev.startswith("RELOAD"):
             new = self.reload_content(2 if ev.endswith("2") else 1)
@@ -211,6 +214,11 @@ def run_seq(job):
         for ev in seq:
             if not w.do(ev):
                 continue
+            # the auto-released core:wait hook is served by this driver: keep serving it for a moment, so that the coordinator comes
+            # round and picks the request up BEFORE the next event is issued - otherwise two consecutive events reach it as one
+            # merged request (that is what the BURST events are for) and "a query edit in the gap after a reload" never happens
+            for _ in range(4):
+                s.pump(0.03)
             if not w.settled():
                 continue  # searches are held / a reload waits for the end of stdin: nothing can be demanded yet
             w.want = w.current()
